@@ -107,14 +107,15 @@ M = [
     ("spatial-sort-reversed-all", "votekit/ballot_generator.py",
      "candidate_order = sorted(distance_dict, key=distance_dict.__getitem__)", "candidate_order = sorted(distance_dict, key=distance_dict.__getitem__, reverse=True)", ["C16"]),
     ("simplex-one-ballot-short", "votekit/ballot_generator.py",
-     "            a=len(perm_rankings), size=number_of_ballots, p=draw_probabilities\n        )\n\n        ballot_pool = [perm_rankings[indices[i]] for i in range(number_of_ballots)]",
-     "            a=len(perm_rankings), size=number_of_ballots, p=draw_probabilities\n        )\n\n        ballot_pool = [perm_rankings[indices[i]] for i in range(max(number_of_ballots - 1, 1))]", ["C14"]),
+     "            a=len(perm_rankings), size=number_of_ballots, p=draw_probabilities\n        )\n        ballot_pool = [perm_rankings[indices[i]] for i in range(number_of_ballots)]",
+     "            a=len(perm_rankings), size=number_of_ballots, p=draw_probabilities\n        )\n        ballot_pool = [perm_rankings[indices[i]] for i in range(max(number_of_ballots - 1, 1))]", ["C14"]),
     ("ac-crossover-count-off-by-one", "votekit/ballot_generator.py", "                if i < num_cross_ballots:", "                if i <= num_cross_ballots:", ["C14", "C16"]),
     ("to-csv-weight-int", "votekit/pref_profile.py", '"weight": float(ballot.weight),', '"weight": int(ballot.weight),', ["C18"]),
     ("lp-inf-min", "votekit/metrics/distances.py", "        return max(diff)", "        return min(diff)", ["C19"]),
     ("ballotgraph-fix-short-off", "votekit/graphs/ballot_graph.py",
      "if len(ballot_node) == len(self.candidates) - 1 and fix_short:", "if len(ballot_node) == len(self.candidates) - 2 and fix_short:", ["C19"]),
-    ("alaska-stage-order-unchecked", "votekit/elections/election_types/ranking/alaska.py", "        elif m_1 < m_2:", "        elif m_1 < m_2 - 1:", ["C20"]),
+    # (an earlier entry relaxed Alaska's m_1 < m_2 test; that is not a break: the STV stage still raises ValueError in the constructor)
+    ("stv-seat-bound-off-by-one", "votekit/elections/election_types/ranking/stv.py", "        if m <= 0 or m > len(profile.candidates):", "        if m <= 0 or m > len(profile.candidates) + 1:", ["C20"]),
     ("pv-noninteger-accepted", "votekit/elections/election_types/ranking/plurality_veto.py",
      "            elif int(ballot.weight) != ballot.weight:", "            elif False:", ["C20"]),
     ("quota-unknown-defaults-to-hare", "votekit/elections/election_types/ranking/stv.py",
